@@ -175,6 +175,17 @@ def _hashes():
         })
     return HASHES
 
+def prime_hashes(prog, datas):
+    """enter hash(data) for the given byte strings into the graph of every Checksum node of the program: what the specification needs to
+    know about the (uninterpreted) hash function must not depend on which data the implementation happened to hash"""
+    for node in walk(prog):
+        if node.get("k") == "Checksum":
+            h = _hashes()[node["hash"]]
+            for data in datas:
+                kd = V.enc(bytes(data))
+                if kd not in node["hk"]:
+                    node["hk"].append(kd); node["hv"].append(V.enc(h(bytes(data))))
+
 def realize(n):
     """AST -> live construct object, through the public API only."""
     import construct as cs
